@@ -162,11 +162,20 @@ def to_segments(pts):
     return start, segs, closed
 
 
+class DerivedF(F):
+    """A coordinate that is not a source coordinate but computed from several of them (control
+    point of a degree-elevated quadratic).  The compiler computes it in floating point with the
+    factor 2/3, so even a value that is EXACTLY a half in rational arithmetic reaches the
+    rounding step a last-bit above or below the boundary: both neighbours are admissible there
+    (source coordinates on an exact half stay strict: halves up)."""
+    __slots__ = ()
+
+
 def elevate(p0, seg):
     """Quadratic -> cubic, exact."""
     _, p1, p2 = seg
-    c1 = (p0[0] + F(2, 3) * (p1[0] - p0[0]), p0[1] + F(2, 3) * (p1[1] - p0[1]))
-    c2 = (p2[0] + F(2, 3) * (p1[0] - p2[0]), p2[1] + F(2, 3) * (p1[1] - p2[1]))
+    c1 = (DerivedF(p0[0] + F(2, 3) * (p1[0] - p0[0])), DerivedF(p0[1] + F(2, 3) * (p1[1] - p0[1])))
+    c2 = (DerivedF(p2[0] + F(2, 3) * (p1[0] - p2[0])), DerivedF(p2[1] + F(2, 3) * (p1[1] - p2[1])))
     return ("c", c1, c2, p2)
 
 
@@ -193,7 +202,7 @@ def round_choices(v):
     r = otround(v)
     frac = v + F(1, 2) - math.floor(v + F(1, 2))   # distance above the boundary, in [0,1)
     if frac == 0:
-        return (r,)
+        return (r, r - 1) if isinstance(v, DerivedF) else (r,)
     if frac < TIE:
         return (r, r - 1)
     if 1 - frac < TIE:
